@@ -30,7 +30,7 @@ def jobs(ctx, rel):
                 ["--mode", "pct", "--scenario", "all", "--runs", "200", "--depth", "3", "--seed", str(ctx.seed), "--snapshots"]]
     two = ",".join(n for n, t in sc.scenarios(rel) if t <= 2)
     return [["--mode", "exhaustive", "--scenario", "all", "--preemptions", "3", "--snapshots"],
-            ["--mode", "exhaustive", "--scenario", two, "--preemptions", "4", "--snapshots"],
+            ["--mode", "exhaustive", "--scenario", two, "--preemptions", "4", "--max-runs", "30000", "--snapshots"],
             ["--mode", "pct", "--scenario", "all", "--runs", "10000", "--depth", "4", "--seed", str(ctx.seed), "--snapshots"]]
 
 
@@ -41,7 +41,7 @@ def jobs_upper(ctx, rel):
                 ["--api", "upper", "--mode", "pct", "--scenario", "all", "--runs", "100", "--depth", "3", "--seed", str(ctx.seed), "--snapshots"]]
     two = ",".join(n for n, t in sc.scenarios(rel, "upper") if t <= 2)
     return [["--api", "upper", "--mode", "exhaustive", "--scenario", "all", "--preemptions", "3", "--snapshots"],
-            ["--api", "upper", "--mode", "exhaustive", "--scenario", two, "--preemptions", "4", "--snapshots"],
+            ["--api", "upper", "--mode", "exhaustive", "--scenario", two, "--preemptions", "4", "--max-runs", "30000", "--snapshots"],
             ["--api", "upper", "--mode", "pct", "--scenario", "all", "--runs", "5000", "--depth", "4", "--seed", str(ctx.seed), "--snapshots"]]
 
 
